@@ -211,6 +211,9 @@ def inject(world, key, kind):
     ent = dict(script.get(key) or {"acts": [], "out": {"kind": "ok"}})
     if kind == "assert":
         ent["out"] = {"kind": "assert", "msg": "injected assert"}
+    elif kind == "cfg":
+        # an exception class behave itself handles specially elsewhere: still "an exception in a hook"
+        ent["out"] = {"kind": "exc", "cls": "behave.exception:ConfigError", "msg": "injected config error"}
     else:
         ent["out"] = {"kind": "exc", "cls": "Exception", "msg": "injected exception"}
     script[key] = ent
@@ -310,9 +313,11 @@ def c12_eval_world(world, root, stats, only=None):
         cap = 120 if os.environ.get("VERIF_TIER") == "thorough" else 40
         if len(pts) > cap:
             pts = rng.sample(pts, cap)
-        for e in pts:
+        for n_, e in enumerate(pts):
             for kind in ("exc", "assert"):
                 plans.append([[e["key"], kind]])
+            if n_ % 6 == world["seed"] % 6:
+                plans.append([[e["key"], "cfg"]])
         # sampled pairs
         for _ in range(min(20 if os.environ.get("VERIF_TIER") == "thorough" else 6, len(points) // 2)):
             a, b = rng.sample(points, 2)
